@@ -207,6 +207,9 @@ def flow_of(func: Func) -> Flow:
 
 
 # ---------------------------------------------------------------------------------------------------------------------
+BASELINE_GATE = True
+
+
 class Expander:
     """symbolic expansion of expressions (see module docstring)"""
 
@@ -392,9 +395,9 @@ class Expander:
         if t1 is not t2 or p1 == p2:
             return None
         tn = cfg.node_containing(t1)
-        if tn is None or not cfg.dominates(tn, at) or cfg.can_reach(at, tn):
-            return None
-        if any(isinstance(x, (ast.While,)) for x in ()):
+        # the test dominates the use and the only definitions reaching the use are the two branch definitions: whichever
+        # path reaches the use took the test last (also inside a loop: every iteration re-evaluates it)
+        if tn is None or not cfg.dominates(tn, at):
             return None
         s2 = seen | {id(d1), id(d2)}
         dt, df = (d1, d2) if p1 else (d2, d1)
@@ -529,6 +532,13 @@ class Expander:
         tgt = self._single_target(orig)
         if tgt is None:
             return None
+        if BASELINE_GATE:
+            # shape stability: a function of the reference tree is folded only if it could be folded there (baseline.json
+            # 'inlinable'); otherwise rules written against `f(..)` would lose the call when f's body is tidied up
+            from .normalize import baseline
+            b = baseline()
+            if tgt.qual in b['functions'] and 'inlinable' in b and tgt.qual not in b['inlinable']:
+                return None
         value = self._callee_value(tgt, depth)
         if value is None:
             return None
